@@ -10,6 +10,9 @@ def repo_fix_and_hook_commits():
     return hooks
 
 CHECKS = {
+ 'C03': dict(level='exploration', design='6 C03', technique='deterministic simulation: round-structured histories re-executed from a copied common state under every order of first syncs, compared with a documented-winner model and with each other',
+   text='Rounds of concurrent batches by 2-3 real replicas from a common state; each round is executed under all N! orders of first syncs plus seeded interleaved catch-up syncs; every execution must equal M-winner (delete beats update, greatest timestamp wins per property, creations kept, later rounds override earlier ones whatever the timestamps) and all executions must agree.',
+   note='Trusted: M-winner written from docs; batches restricted to forms with an unambiguous documented winner; on exact timestamp ties any tied value is accepted but must be the same in all orders.'),
  'C01': dict(level='exploration', design='6 C01', technique='deterministic simulation: seeded scenarios of 1-5 real Replicas against a reference chain server, invariant + convergence + conservation oracles, delta-debugged replay',
    text='Seeded exploration of histories (edits, syncs, multi-version syncs, tied/decreasing timestamps, create-delete-create) over the real Replica/TaskDb/InMemoryStorage against an executable reference server; after every action the replica invariant is checked against an independent replay of the stored versions, at quiescence every replica must equal that replay, and every committed update must be accounted for exactly once. Evidence over the sampled seeds, not proof.',
    note='Trusted: the harness reference models (M-apply, M-chain, strict version decoder); SimServer stands in for the server; replicas only create valid operations (intents are resolved through the TaskData API).'),
